@@ -90,6 +90,15 @@ func corpus() []*prog {
 		embedNameProgram(gal.NewRand(9), "c9", "corpus", map[string][]int{"Close": {1, 2, 2}}),
 		embedNameProgram(gal.NewRand(10), "c10", "corpus", map[string][]int{"Close": {2, 2, 1}, "Get": {1, 1, 2}, "foo": {2, 0, 2}}),
 		embedNameProgram(gal.NewRand(11), "c11", "corpus", map[string][]int{"Close": {2, 1, 2, 2, 2}, "Run": {1, 2, 1, 2, 1}}))
+	// c12 (outside the quantifier, compared with the model only): three levels deep the merge takes
+	// Z.Foo(string) although Go promotes A.Foo() — see C19_example_selects_needs_two_levels
+	p = newp("c12")
+	p.Kind = "corpus-ood"
+	fooOf := func(t string) gmeth { return m("Foo", ps(par("", basic(t))), nil) }
+	p.Structs = []gstruct{leafStruct("A", "Foo"), {Name: "X", Methods: []gmeth{fooOf("int")}},
+		{Name: "F", Embeds: emb(p, "X")}, {Name: "G", Embeds: emb(p, "A", "F")},
+		{Name: "Z", Methods: []gmeth{fooOf("string")}}, {Name: "Y", Embeds: emb(p, "Z")}, {Name: "H", Embeds: emb(p, "Y")},
+		{Name: "Original", Embeds: emb(p, "G", "H"), Methods: []gmeth{m("Own", nil, nil)}}}
 	// c7, c8: one method per regression-prone shape (see shapeProgram), fixed seeds
 	out = append(out, shapeProgram(gal.NewRand(7), "c7", "corpus"), shapeProgram(gal.NewRand(8), "c8", "corpus"))
 	return out
